@@ -2481,8 +2481,10 @@ func builtinAllP(env *LEnv, args *LVal) *LVal {
 		return env.Errorf("second argument is not a proper sequence: %v", list.Type)
 	}
 	for _, v := range seqCells(list) {
-		expr := SExpr([]*LVal{pred, v})
-		ok := env.Eval(expr)
+		// Call pred on the element as a VALUE (as map/select/foldl do).
+		// Evaluating the form (pred elem) evaluated the element a second
+		// time, so a symbol or list element was looked up or called.
+		ok := env.FunCall(pred, SExpr([]*LVal{v}))
 		if ok.Type == LError {
 			return ok
 		}
@@ -2506,8 +2508,10 @@ func builtinAnyP(env *LEnv, args *LVal) *LVal {
 		return env.Errorf("second argument is not a list: %v", list.Type)
 	}
 	for _, v := range seqCells(list) {
-		expr := SExpr([]*LVal{pred, v})
-		ok := env.Eval(expr)
+		// Call pred on the element as a VALUE (as map/select/foldl do).
+		// Evaluating the form (pred elem) evaluated the element a second
+		// time, so a symbol or list element was looked up or called.
+		ok := env.FunCall(pred, SExpr([]*LVal{v}))
 		if ok.Type == LError {
 			return ok
 		}
